@@ -99,7 +99,7 @@ def run_shapes(ctx, module, families, structure_n=(5, 6)):
     for fam in list(families) + ['pairs']:
         ctx.level('shapes:' + fam, [job_shapes.job(module, fam, s, ns, ctx.quick) for s in range(ns)])
     n = ctx.pick(*structure_n)
-    ctx.level('structure N<=%d via parser' % n, [job_structure.job(module, n, s, ns) for s in range(ns)])
+    ctx.level('structure N<=%d via parser' % n, [job_structure.job(module, n, s, 192) for s in range(192)])
 
 
 def compare(acc, case, sig, what, got, exp):
